@@ -6,6 +6,10 @@ from lib import gz, gtext, glist, gbool, gopt, gpair
 THEOREMS = ['C08_int_text_roundtrip', 'C08_int_out_lex', 'C08_bounded_native_exact',
             'C08_bounded_roundtrip', 'C08_integer_roundtrip', 'C08_integer_in_lex']
 
+THEOREMS_DT = ['C08_dt_offset_roundtrip', 'C08_dt_usec_six_digits', 'C08_dt_usec_exact', 'C08_dt_usec_digits', 'C08_dt_datetime_roundtrip', 'C08_dt_time_roundtrip', 'C08_dt_date_roundtrip', 'C08_dt_datetime_out_lex_partial', 'C08_dt_datetime_out_lex_refuted', 'C08_dt_datetime_out_lex_iff', 'C08_dt_time_out_lex', 'C08_dt_date_out_lex', 'C08_dt_datetime_in_lex', 'C08_dt_time_in_lex', 'C08_dt_date_in_lex', 'C08_dt_datetime_reader_shape', 'C08_dt_datetime_only_valueerror', 'C08_dt_datetime_crash_iff', 'C08_dt_datetime_no_trailing_junk', 'C08_dt_time_only_valueerror', 'C08_dt_time_crash_iff', 'C08_dt_date_only_valueerror', 'C08_dt_date_crash_iff']
+THEOREMS_DUR = ['C08_duration_roundtrip', 'C08_duration_out_lex', 'C08_duration_out_lex_all', 'C08_duration_in_lex', 'C08_duration_range_abs', 'C08_duration_in_lex_strong', 'C08_duration_reader_total', 'C08_duration_out_of_range', 'C08_dur_no_trailing_junk', 'C08_dur_suffix_rejected', 'C08_boolean_roundtrip', 'C08_boolean_out_lex', 'C08_boolean_in_lex']
+THEOREMS_BIN = ['C08_base64_roundtrip', 'C08_hex_roundtrip', 'C08_base64_out_lex', 'C08_hex_out_lex', 'C08_base64_reader_total', 'C08_hex_reader_total', 'C08_hex_reader_bytes', 'C08_base64_reader_bytes', 'C08_base64_in_lex', 'C08_hex_in_lex']
+
 INT_TYPES = ['Integer', 'UnsignedInteger', 'PositiveInteger', 'Integer8', 'Integer16', 'Integer32',
              'Integer64', 'UnsignedInteger8', 'UnsignedInteger16', 'UnsignedInteger32', 'UnsignedInteger64']
 
@@ -162,6 +166,499 @@ def family_int(check, tier):
                 check.fail(key, what, {'type': tn, 'value': z, 'text': s})
 
 
+# ------------------------------------------------------------------ date/time family
+def g_date(d):
+    return '(mkdate %d %d %d)' % (d.year, d.month, d.day)
+
+def g_tod(t):
+    return '(mktod %d %d %d %d)' % (t.hour, t.minute, t.second, t.microsecond)
+
+def off_minutes(v):
+    o = v.utcoffset()
+    if o is None:
+        return None
+    us = (o.days * 86400 + o.seconds) * 1000000 + o.microseconds
+    if us % 60000000:
+        raise ValueError('offset with seconds')
+    return us // 60000000
+
+def g_dt(v):
+    return '(mkdt %s %s %s)' % (g_date(v), g_tod(v), gopt(off_minutes(v), gz))
+
+DT_IMPORTS = ('From SpyneV Require Import Base.Prelude Base.Digits C08.DtModel C08.DurModel C08.BinModel.\n'
+              'Definition dtout_eqb := out_eqb datetime_eqb.\nDefinition dout_eqb := out_eqb date_eqb.\n'
+              'Definition tout_eqb := out_eqb tod_eqb.\nDefinition zout_eqb := out_eqb Z.eqb.\n'
+              'Definition bout_eqb := out_eqb bytes_eqb.')
+
+US_EDGE = [0, 1, 5, 9, 10, 99, 100, 999, 1000, 9999, 10000, 99999, 100000, 123456, 500000, 999999, 249, 248, 250000]
+
+def all_offsets():
+    return list(range(-14 * 60, 14 * 60 + 1))
+
+def dt_values(check, tier):
+    import datetime as D, pytz
+    rng = check.rng
+    vals = []
+    offs = [None, 0, 1, -1, 30, -30, 59, -59, 60, -60, 61, -61, 289, -289, 330, -330, 345, 570, -570,
+            839, -839, 840, -840, 1439, -1439, 720, -720]
+    n_off = 60 if tier == 'quick' else 1681
+    offs += rng.sample(all_offsets(), n_off) if n_off < 1681 else all_offsets()
+    dates = [(1, 1, 1), (9999, 12, 31), (2000, 2, 29), (1900, 2, 28), (2024, 2, 29), (2023, 12, 31), (1970, 1, 1),
+             (999, 9, 9), (10, 10, 10), (2020, 1, 31), (2021, 11, 30)]
+    times = [(0, 0, 0), (23, 59, 59), (12, 0, 0), (1, 2, 3), (9, 59, 0)]
+    for o in offs:
+        y, m, d = rng.choice(dates)
+        hh, mm, ss = rng.choice(times)
+        us = rng.choice(US_EDGE + [rng.randint(0, 999999)])
+        tz = None if o is None else (pytz.utc if (o == 0 and rng.random() < .5) else D.timezone(D.timedelta(minutes=o)))
+        vals.append(D.datetime(y, m, d, hh, mm, ss, us, tz))
+    for (y, m, d) in dates:
+        for (hh, mm, ss) in times:
+            vals.append(D.datetime(y, m, d, hh, mm, ss, rng.choice(US_EDGE), pytz.utc))
+    for us in US_EDGE:
+        vals.append(D.datetime(2020, 5, 17, 10, 20, 30, us))
+    n = 150 if tier == 'quick' else 4000
+    for _ in range(n):
+        y = rng.choice([rng.randint(1, 9999), rng.randint(1900, 2100)])
+        m = rng.randint(1, 12)
+        d = rng.randint(1, 28)
+        o = rng.choice([None, rng.randint(-1439, 1439), rng.randint(-840, 840)])
+        tz = None if o is None else D.timezone(D.timedelta(minutes=o))
+        vals.append(D.datetime(y, m, d, rng.randint(0, 23), rng.randint(0, 59), rng.randint(0, 59),
+                               rng.choice([0, rng.randint(0, 999999), rng.choice(US_EDGE)]), tz))
+    return vals
+
+def dt_literals(check, tier):
+    rng = check.rng
+    lits = ['2020-01-01T00:00:00', '2020-01-01 00:00:00', '2020-01-01T00:00:00Z', '2020-01-01T00:00:00z',
+            '2020-01-01T00:00:00+00:00', '2020-01-01T00:00:00-00:00', '2020-01-01T00:00:00-00:30',
+            '2020-01-01T00:00:00-04:49', '2020-01-01T00:00:00+04:49', '2020-01-01T00:00:00+14:00',
+            '2020-01-01T00:00:00-14:00', '2020-01-01T00:00:00+23:59', '2020-01-01T00:00:00-23:59',
+            '2020-01-01T00:00:00+24:00', '2020-01-01T00:00:00-24:00', '2020-01-01T00:00:00+99:59',
+            '2020-01-01T00:00:00+05:60', '2020-01-01T00:00:00+05:99',
+            '2020-01-01T00:00:00Zjunk', '2020-01-01T00:00:00+02:00junk', '2020-01-01T00:00:00junk',
+            '2020-01-01T00:00:00+0200', '2020-01-01T00:00:00.', '2020-01-01T00:00:00.Z', '2020-01-01T00:00:00.5',
+            '2020-01-01T00:00:00.5Z', '2020-01-01T00:00:00.000001Z', '2020-01-01T00:00:00.0000005Z',
+            '2020-01-01T00:00:00.9999995Z', '2020-01-01T00:00:00.999999Z', '2020-01-01T00:00:00.9999994Z',
+            '2020-01-01T00:00:00.000249Z', '2020-01-01T00:00:00.123456789Z', '2020-01-01T00:00:00.1234565',
+            '2020-13-01T00:00:00Z', '2020-00-01T00:00:00Z', '2020-01-32T00:00:00Z', '2020-02-30T00:00:00Z',
+            '2021-02-29T00:00:00Z', '2020-02-29T00:00:00Z', '1900-02-29T00:00:00Z', '2000-02-29T00:00:00Z',
+            '0000-01-01T00:00:00Z', '0001-01-01T00:00:00Z', '9999-12-31T23:59:59.999999Z',
+            '2020-01-01T24:00:00Z', '2020-01-01T23:60:00Z', '2020-01-01T23:59:60Z', '2020-01-01T23:59:59Z',
+            '20200-01-01T00:00:00Z', '-2020-01-01T00:00:00Z', '202-01-01T00:00:00Z', '2020-1-01T00:00:00Z',
+            '2020-01-01T0:00:00Z', '2020-01-01', '2020-01-01T', '2020-01-01T00:00', '', ' ', 'abc',
+            ' 2020-01-01T00:00:00Z', '2020-01-01T00:00:00 Z', '2020-01-01t00:00:00Z', '2020/01/01T00:00:00Z',
+            '2020-01-01T00-00-00Z', '2020-01-01T00:00:00,5Z']
+    n = 200 if tier == 'quick' else 4000
+    for _ in range(n):
+        y, m, d = rng.randint(1, 9999), rng.randint(1, 12), rng.randint(1, 28)
+        if rng.random() < .1:
+            m = rng.randint(0, 19)
+        if rng.random() < .1:
+            d = rng.randint(0, 39)
+        hh, mm, ss = rng.randint(0, 23), rng.randint(0, 59), rng.randint(0, 59)
+        if rng.random() < .1:
+            hh = rng.randint(0, 30)
+        if rng.random() < .1:
+            ss = rng.randint(0, 70)
+        s = '%04d-%02d-%02d%s%02d:%02d:%02d' % (y, m, d, rng.choice('TTT '), hh, mm, ss)
+        r = rng.random()
+        if r < .6:
+            k = rng.randint(1, 9) if rng.random() < .8 else rng.randint(10, 15)
+            s += '.' + ''.join(rng.choice('0123456789') for _ in range(k))
+        r = rng.random()
+        if r < .3:
+            s += 'Z'
+        elif r < .75:
+            s += '%s%02d:%02d' % (rng.choice('+-'), rng.choice([rng.randint(0, 14), rng.randint(0, 25)]),
+                                  rng.choice([0, 30, 45, rng.randint(0, 59)]))
+        if rng.random() < .05:
+            s += rng.choice(['x', ' ', 'Z', '+'])
+        if rng.random() < .05:
+            k = rng.randrange(len(s))
+            s = s[:k] + rng.choice('0123456789:-TZ. x') + s[k + 1:]
+        lits.append(s)
+    return lits
+
+def family_datetime(check, tier):
+    import datetime as D
+    from spyne.protocol import ProtocolBase
+    from spyne.protocol.soap import Soap11
+    from spyne.model.primitive import DateTime, Date, Time
+    prot = ProtocolBase()
+    soap = Soap11()
+    vals = dt_values(check, tier)
+    # printers
+    pc, dc, tc = [], [], []
+    for v in vals:
+        o = observe(prot.to_unicode, DateTime, v)
+        pc.append(('(%s, %s)' % (g_dt(v), gtext(o[1]) if o[0] == 'ok' else '[]'), 'to_unicode(DateTime,%r)=%r' % (v, o)))
+        o = observe(prot.to_unicode, Date, v.date())
+        dc.append(('(%s, %s)' % (g_date(v), gtext(o[1]) if o[0] == 'ok' else '[]'), 'to_unicode(Date,%r)=%r' % (v.date(), o)))
+        o = observe(prot.to_unicode, Time, v.time())
+        tc.append(('(%s, %s)' % (g_tod(v), gtext(o[1]) if o[0] == 'ok' else '[]'), 'to_unicode(Time,%r)=%r' % (v.time(), o)))
+        check.count(('dtp', repr(v)))
+    lib.correspond(check, 'datetime_print', DT_IMPORTS, 'datetime * text',
+                   '(fun c => text_eqb (datetime_iso (fst c)) (snd c))', pc, show='(fun c : datetime * text => datetime_iso (fst c))')
+    lib.correspond(check, 'date_print', DT_IMPORTS, 'date * text',
+                   '(fun c => text_eqb (date_iso (fst c)) (snd c))', dc, show='(fun c : date * text => date_iso (fst c))')
+    lib.correspond(check, 'time_print', DT_IMPORTS, 'tod * text',
+                   '(fun c => text_eqb (time_iso (fst c)) (snd c))', tc, show='(fun c : tod * text => time_iso (fst c))')
+    # readers
+    lits = dt_literals(check, tier)
+    def obs_dt(pr, s):
+        o = observe(pr.from_unicode, DateTime, s)
+        if o[0] == 'ok':
+            try:
+                return gout(o, g_dt)
+            except ValueError:
+                return None
+        return gout(o, None)
+    for nm, pr in (('base', prot), ('soap', soap)):
+        rc = []
+        for s in lits:
+            g = obs_dt(pr, s)
+            if g is None:
+                continue
+            rc.append(('(%s, %s)' % (gtext(s), g), 'from_unicode[%s](DateTime,%r)->%s' % (nm, s, g)))
+            check.count(('dtr', nm, s))
+        lib.correspond(check, 'datetime_read_' + nm, DT_IMPORTS, 'text * out datetime',
+                       '(fun c => dtout_eqb (datetime_from_unicode_iso (fst c)) (snd c))', rc,
+                       show='(fun c : text * out datetime => datetime_from_unicode_iso (fst c))')
+    # date / time literals: derived from the datetime stream plus specials
+    dlits = ['2020-01-05', '2020-1-5', '2020-01-5', '2020-1-05', '2020-01- 5', '2020-01-05Z', '2020-01-05+02:00',
+             '2020-01-05-14:00', '2020-01-05z', '2020-01-05Zjunk', '2020-01-05junk', '2020-01-05 ', ' 2020-01-05',
+             '2020-02-30', '2020-02-30Z', '2020-13-01', '2020-13-01Z', '2020-00-10', '2020-10-00', '2020-10-32',
+             '2020-10-31', '2020-10-3', '2020-10-30', '2020-10-39', '2020-10-40', '2020-10-1x', '2020-10-0', '2020-0-1',
+             '0000-01-01', '0001-01-01', '9999-12-31', '10000-01-01', '999-01-01', '', 'abc', '2020-01', '2020-01-05T00:00:00',
+             '2020-01-05+2:00', '2020-01-05+02:0', '2020-01-05+24:00', '2020-12-31', '2020-11-31', '2021-02-29', '2024-02-29',
+             '2020-10-12', '2020-11-11', '2020-12-12', '2020-9-9', '2020-09-09', '2020-19-09', '2020-1-', '2020--1']
+    tlits = ['00:00:00', '23:59:59', '24:00:00', '12:60:00', '12:00:60', '12:00:00.5', '12:00:00.000001', '12:00:00.9999995',
+             '12:00:00.0000005', '12:00:00junk', '12:00:00Z', '12:00:00+02:00', '1:00:00', '12:0:00', '', 'abc', '12:00',
+             ' 12:00:00', '12:00:00.', '12:00:00.x', '25:00:00', '99:99:99', '12:00:00.123456789']
+    for s in lits:
+        if len(s) >= 19 and check.rng.random() < .5:
+            dlits.append(s[:10] + s[19:] if check.rng.random() < .7 else s[:10])
+            tlits.append(s[11:])
+    rc = []
+    for s in dlits:
+        for nm, pr in (('base', prot),):
+            o = observe(pr.from_unicode, Date, s)
+            rc.append(('(%s, %s)' % (gtext(s), gout(o, g_date)), 'from_unicode(Date,%r)->%r' % (s, o)))
+            check.count(('dr', s))
+    lib.correspond(check, 'date_read', DT_IMPORTS, 'text * out date',
+                   '(fun c => dout_eqb (date_from_unicode (fst c)) (snd c))', rc,
+                   show='(fun c : text * out date => date_from_unicode (fst c))')
+    rc = []
+    for s in tlits:
+        o = observe(prot.from_unicode, Time, s)
+        rc.append(('(%s, %s)' % (gtext(s), gout(o, g_tod)), 'from_unicode(Time,%r)->%r' % (s, o)))
+        check.count(('tr', s))
+    lib.correspond(check, 'time_read', DT_IMPORTS, 'text * out tod',
+                   '(fun c => tout_eqb (time_from_unicode (fst c)) (snd c))', rc,
+                   show='(fun c : text * out tod => time_from_unicode (fst c))')
+    check.sample({'family': 'datetime', 'values': [repr(v) for v in vals[:3]], 'literals': lits[70:76]})
+    # direct oracle: round trip (same fields, same UTC offset), exhaustively over all 1681 offsets, and XSD validity
+    import pytz
+    ovals = list(vals)
+    for o in all_offsets():
+        ovals.append(D.datetime(2020, 6, 15, 12, 30, 45, check.rng.choice(US_EDGE), D.timezone(D.timedelta(minutes=o))))
+    for us in (US_EDGE if tier == 'quick' else range(0, 1000000, 997)):
+        ovals.append(D.datetime(2021, 3, 4, 5, 6, 7, us, pytz.utc))
+    for v in ovals:
+        for nm, pr in (('base', prot), ('soap', soap)):
+            s = pr.to_unicode(DateTime, v)
+            o = observe(pr.from_unicode, DateTime, s)
+            check.count(('dto', nm, repr(v)))
+            om = off_minutes(v)
+            bad = o[0] != 'ok' or o[1].replace(tzinfo=None) != v.replace(tzinfo=None) or \
+                (o[1].utcoffset() != v.utcoffset())
+            if bad:
+                shape = 'naive' if om is None else ('neg-offset-with-minutes' if om < 0 and om % 60 else 'offset')
+                if o[0] == 'ok' and o[1].microsecond != v.microsecond:
+                    shape = 'microseconds'
+                check.fail('C08|DateTime|roundtrip|%s' % shape, 'DateTime %r written %r read back as %r' % (v, s, o),
+                           {'type': 'DateTime', 'value': repr(v), 'text': s, 'protocol': nm})
+            if (om is None or abs(om) <= 840) and not xsd_ok('dateTime', s):
+                check.fail('C08|DateTime|out_lex', 'DateTime text %r is not a valid xs:dateTime' % s, {'value': repr(v)})
+    for v in vals:
+        s = prot.to_unicode(Date, v.date())
+        o = observe(prot.from_unicode, Date, s)
+        if o != ('ok', v.date()):
+            check.fail('C08|Date|roundtrip', 'Date %r written %r read back as %r' % (v.date(), s, o), {'value': repr(v.date())})
+        if not xsd_ok('date', s):
+            check.fail('C08|Date|out_lex', 'Date text %r is not a valid xs:date' % s, {'value': repr(v.date())})
+        s = prot.to_unicode(Time, v.time())
+        o = observe(prot.from_unicode, Time, s)
+        if o != ('ok', v.time()):
+            check.fail('C08|Time|roundtrip', 'Time %r written %r read back as %r' % (v.time(), s, o), {'value': repr(v.time())})
+        if not xsd_ok('time', s):
+            check.fail('C08|Time|out_lex', 'Time text %r is not a valid xs:time' % s, {'value': repr(v.time())})
+        check.count(('do', repr(v)))
+
+
+_SCHEMAS = {}
+def xsd_ok(tname, lit):
+    from lxml import etree
+    if tname not in _SCHEMAS:
+        xsd = ('<xs:schema xmlns:xs="http://www.w3.org/2001/XMLSchema"><xs:element name="v" type="xs:%s"/></xs:schema>' % tname)
+        _SCHEMAS[tname] = etree.XMLSchema(etree.fromstring(xsd))
+    el = etree.Element('v')
+    el.text = lit
+    return _SCHEMAS[tname].validate(el)
+
+
+# ------------------------------------------------------------------ duration / boolean family
+def td_us(td):
+    return (td.days * 86400 + td.seconds) * 1000000 + td.microseconds
+
+def dur_values(check, tier):
+    import datetime as D
+    rng = check.rng
+    vals = [0, 1, 5, 10, 99999, 100000, 999999, 1000000, 1000001, 59000000, 60000000, 61000000, 3599000000, 3600000000,
+            3661000001, 86399999999, 86400000000, 86400000001, 2 * 86400000000, 86400000000 + 3600000000,
+            86400000000 + 5, 999999999 * 86400000000, 999999999 * 86400000000 + 86399999999, 249, 248,
+            90061000001, 31 * 86400000000, 365 * 86400000000]
+    vals += [-v for v in vals]
+    n = 200 if tier == 'quick' else 5000
+    for _ in range(n):
+        d = rng.choice([0, 0, rng.randint(0, 400), rng.randint(0, 999999999)])
+        sec = rng.choice([0, rng.randint(0, 86399), rng.choice([60, 3600, 59, 3599, 3601])])
+        us = rng.choice([0, rng.randint(0, 999999), rng.choice(US_EDGE)])
+        v = (d * 86400 + sec) * 1000000 + us
+        vals.append(v if rng.random() < .7 else -v)
+    out = []
+    for v in vals:
+        try:
+            out.append(D.timedelta(microseconds=v))
+        except OverflowError:
+            pass
+    return out
+
+def dur_literals(check, tier):
+    rng = check.rng
+    lits = ['P', 'PT', 'PT0S', 'P0D', 'P1D', 'P1DT', 'PT1H', 'PT1M', 'PT1S', 'PT1.5S', 'PT0.000001S', 'PT0.000249S',
+            'PT0.0000005S', 'PT0.9999999S', 'PT1.S', 'PT.5S', 'PT1x5S', 'P1Y', 'P1M', 'P1Y2M3DT4H5M6.7S', '-P1D', '-PT0S',
+            '--P1D', '+P1D', 'P-1D', 'PT-1S', 'P1DT1H1M1S', 'P1D1H', 'P1H', 'PT1D', 'P1S', 'PT1M1H', 'PT1S1M', 'P1D2Y',
+            'xyz', '', ' P1D', 'P1D ', 'p1d', 'P 1D', 'P1,5D', 'P1.5D', 'PT1.5H', 'P999999999D', 'P1000000000D',
+            '-P999999999DT1S', '-P999999999D', 'P999999999DT23H59M59.999999S', 'P999999999DT24H', 'P99999999999D',
+            'PT36H', 'PT90M', 'PT3600S', 'PT86400S', 'PT100000000000S', 'P0Y0M0DT0H0M0S', 'PT0.1234567S', 'PT59.999999S',
+            'PT60S', 'P10D', 'P01D', 'PT007S', 'PT1H1S', 'P1DT1S', 'PT1M1S', 'P1M1D', 'P1Y1D', 'PT1S junk', 'P1Djunk']
+    n = 200 if tier == 'quick' else 5000
+    for _ in range(n):
+        s = rng.choice(['', '', '-']) + 'P'
+        for u in 'YMD':
+            if rng.random() < (.15 if u != 'D' else .5):
+                s += '%d%s' % (rng.choice([0, 1, rng.randint(0, 400), rng.randint(0, 10 ** 9)]), u)
+        if rng.random() < .7:
+            s += 'T'
+            for u in 'HM':
+                if rng.random() < .4:
+                    s += '%d%s' % (rng.choice([0, 1, rng.randint(0, 100), rng.randint(0, 10 ** 6)]), u)
+            if rng.random() < .6:
+                s += '%d' % rng.choice([0, 1, rng.randint(0, 59), rng.randint(0, 10 ** 6)])
+                if rng.random() < .6:
+                    s += '.' + ''.join(rng.choice('0123456789') for _ in range(rng.randint(1, 9)))
+                s += 'S'
+        if rng.random() < .06:
+            k = rng.randrange(len(s))
+            s = s[:k] + rng.choice('0123456789PTDHMS.-x ') + s[k + 1:]
+        lits.append(s)
+    return lits
+
+def family_duration(check, tier):
+    import datetime as D
+    from spyne.protocol import ProtocolBase
+    from spyne.model.primitive import Duration, Boolean
+    prot = ProtocolBase()
+    vals = dur_values(check, tier)
+    pc = []
+    for v in vals:
+        o = observe(prot.to_unicode, Duration, v)
+        pc.append(('(%s, %s)' % (gz(td_us(v)), gtext(o[1]) if o[0] == 'ok' else '[]'), 'to_unicode(Duration,%r)=%r' % (v, o)))
+        check.count(('durp', td_us(v)))
+    lib.correspond(check, 'duration_print', DT_IMPORTS, 'Z * text',
+                   '(fun c => text_eqb (duration_to_unicode (fst c)) (snd c))', pc,
+                   show='(fun c : Z * text => duration_to_unicode (fst c))')
+    lits = dur_literals(check, tier)
+    rc = []
+    for s in lits:
+        o = observe(prot.from_unicode, Duration, s)
+        rc.append(('(%s, %s)' % (gtext(s), gout(o, lambda t: gz(td_us(t)))), 'from_unicode(Duration,%r)->%r' % (s, o)))
+        check.count(('durr', s))
+    lib.correspond(check, 'duration_read', DT_IMPORTS, 'text * out Z',
+                   '(fun c => zout_eqb (duration_from_unicode (fst c)) (snd c))', rc,
+                   show='(fun c : text * out Z => duration_from_unicode (fst c))')
+    check.sample({'family': 'duration', 'values': [repr(v) for v in vals[:4]], 'literals': lits[:8]})
+    for v in vals:
+        s = prot.to_unicode(Duration, v)
+        o = observe(prot.from_unicode, Duration, s)
+        check.count(('duro', td_us(v)))
+        if o != ('ok', v):
+            us = abs(td_us(v)) % 1000000
+            shape = 'us<100000' if 0 < us < 100000 else 'value'
+            check.fail('C08|Duration|roundtrip|%s' % shape, 'Duration %r written %r read back as %r' % (v, s, o),
+                       {'type': 'Duration', 'microseconds': td_us(v), 'text': s})
+        elif not xsd_ok('duration', s):
+            check.fail('C08|Duration|out_lex', 'Duration text %r is not a valid xs:duration' % s, {'microseconds': td_us(v)})
+    # every D/H/M/S xs:duration literal with <= 6 fraction digits is read as its value (to the microsecond)
+    for s in lits:
+        import re
+        m = re.fullmatch(r'(-?)P(?:(\d+)D)?(?:T(?:(\d+)H)?(?:(\d+)M)?(?:(\d+)(?:\.(\d{1,6}))?S)?)?', s)
+        if not m or not xsd_ok('duration', s):
+            continue
+        sg, d, h, mi, sec, fr = m.groups()
+        us = (int(d or 0) * 86400 + int(h or 0) * 3600 + int(mi or 0) * 60 + int(sec or 0)) * 1000000 + \
+            int(((fr or '') + '000000')[:6])
+        us = -us if sg else us
+        try:
+            want = D.timedelta(microseconds=us)
+        except OverflowError:
+            continue
+        o = observe(prot.from_unicode, Duration, s)
+        check.count(('durl', s))
+        if o != ('ok', want):
+            check.fail('C08|Duration|in_lex', 'xs:duration literal %r read as %r, denotes %r' % (s, o, want), {'text': s})
+    # boolean
+    bl = ['true', 'false', '1', '0', 'TRUE', 'True', 'FALSE', 'tRuE', '', ' true', 'true ', 'maybe', 'yes', 'no', '2', '01', '00',
+          't', 'f', 'truee', '１']
+    bc = [('(%s, %s)' % (gtext(s), gbool(prot.from_unicode(Boolean, s)) if s else 'false'), 'from_unicode(Boolean,%r)' % s)
+          for s in bl if s]
+    lib.correspond(check, 'boolean_read', DT_IMPORTS, 'text * bool',
+                   '(fun c => Bool.eqb (boolean_from_unicode (fst c)) (snd c))', bc)
+    bp = [('(%s, %s)' % (gbool(b), gtext(prot.to_unicode(Boolean, b))), 'to_unicode(Boolean,%r)' % b) for b in (True, False)]
+    lib.correspond(check, 'boolean_print', DT_IMPORTS, 'bool * text',
+                   '(fun c => text_eqb (boolean_to_unicode (fst c)) (snd c))', bp)
+    for b in (True, False):
+        s = prot.to_unicode(Boolean, b)
+        check.count(('bool', b))
+        if prot.from_unicode(Boolean, s) is not b or not xsd_ok('boolean', s):
+            check.fail('C08|Boolean|roundtrip', 'Boolean %r written %r' % (b, s), {'value': b})
+    for s, want in (('true', True), ('false', False), ('1', True), ('0', False)):
+        if prot.from_unicode(Boolean, s) is not want:
+            check.fail('C08|Boolean|in_lex', 'xs:boolean literal %r read as %r' % (s, prot.from_unicode(Boolean, s)), {'text': s})
+
+
+# ------------------------------------------------------------------ binary family
+def family_binary(check, tier):
+    from spyne.protocol import ProtocolBase
+    from spyne.model.binary import ByteArray, BINARY_ENCODING_BASE64, BINARY_ENCODING_HEX, BINARY_ENCODING_URLSAFE_BASE64
+    prot = ProtocolBase()
+    rng = check.rng
+    blobs = [b'', b'a', b'ab', b'abc', b'abcd', b'\x00', b'\xff', b'\x00\x00\x00', b'\xff\xff\xff', b'\xfb\xff\xbf',
+             b'\xfb', b'\xfb\xf0', bytes(range(256)), b'\x3e\x3f', b'\xf8', b'\xfc']
+    n = 150 if tier == 'quick' else 3000
+    for _ in range(n):
+        blobs.append(bytes(rng.randrange(256) for _ in range(rng.choice([1, 2, 3, 4, 5, 6, 7, 30, 31, 32]))))
+    encs = (('base64', BINARY_ENCODING_BASE64, 'b64encode false', 'b64decode false', 'base64Binary'),
+            ('urlsafe', BINARY_ENCODING_URLSAFE_BASE64, 'b64encode true', 'b64decode true', None),
+            ('hex', BINARY_ENCODING_HEX, 'hexlify', 'unhexlify', 'hexBinary'))
+    mal = ['YQ', 'Y', 'YQ=', 'YQ==', 'YQ===', 'YQ==YQ==', 'Y Q = =', '*YQ==', 'YQ\n==', '=YQ==', 'Y=Q==', 'YWI=', 'YWJj', 'YWJjZA',
+           '====', '=', '', 'YQ=a', 'YWI=x', 'é', 'YQ==é', 'zz', '0', '0g', 'ABCDEF', 'abcdef', '0a 0b', ' 0a', 'a', 'abc',
+           '+/+/', '-_-_', '+-/_', 'YW-_', 'YW+/']
+    for _ in range(n):
+        k = rng.randint(0, 12)
+        mal.append(''.join(rng.choice('ABCDabcd0129+/-_= \n*') for _ in range(k)))
+    for nm, enc, cenc, cdec, xs in encs:
+        pc, rc = [], []
+        for b in blobs:
+            o = observe(prot.to_unicode, ByteArray, [b], enc)
+            pc.append(('(%s, %s)' % (gtext(b), gtext(o[1]) if o[0] == 'ok' else '[0]'), 'to_unicode(ByteArray[%s],%r)=%r' % (nm, b[:8], o)))
+            check.count(('binp', nm, b))
+            if o[0] == 'ok':
+                r = observe(prot.from_unicode, ByteArray, o[1], enc)
+                if r[0] != 'ok' or b''.join(r[1]) != b:
+                    check.fail('C08|ByteArray|roundtrip|%s' % nm, '%s: %r written %r read back %r' % (nm, b[:16], o[1][:24], r), {'bytes': list(b), 'encoding': nm})
+                if xs and not xsd_ok(xs, o[1]):
+                    check.fail('C08|ByteArray|out_lex|%s' % nm, '%s text %r is not a valid xs:%s' % (nm, o[1][:24], xs), {'bytes': list(b)})
+        lib.correspond(check, 'bin_print_' + nm, DT_IMPORTS, 'list Z * text',
+                       '(fun c => text_eqb (%s (fst c)) (snd c))' % cenc, pc, show='(fun c : list Z * text => %s (fst c))' % cenc)
+        for s in mal + [prot.to_unicode(ByteArray, [b], enc) for b in blobs[:40]]:
+            o = observe(prot.from_unicode, ByteArray, s, enc)
+            g = gout(o, lambda t: gtext(b''.join(t)))
+            rc.append(('(%s, %s)' % (gtext(s), g), 'from_unicode(ByteArray[%s],%r)->%r' % (nm, s, o)))
+            check.count(('binr', nm, s))
+        lib.correspond(check, 'bin_read_' + nm, DT_IMPORTS, 'text * out (list Z)',
+                       '(fun c => bout_eqb (%s (fst c)) (snd c))' % cdec, rc, show='(fun c : text * out (list Z) => %s (fst c))' % cdec)
+    check.sample({'family': 'binary', 'blobs': [list(b) for b in blobs[1:4]], 'malformed': mal[:8]})
+
+
+# ------------------------------------------------------------------ decimal / double / uuid / unicode (oracle only)
+def family_other(check, tier):
+    """Decimal, Double, Uuid, Unicode, AnyUri: decided by the direct oracle only (round trip +
+    lxml lexical validity); these leaf codecs delegate to decimal/float/uuid of the standard
+    library and are not modelled in Coq (stated in the evidence)."""
+    import decimal, uuid, struct, math
+    from spyne.protocol import ProtocolBase
+    from spyne.model.primitive import Decimal, Double, Uuid, Unicode, AnyUri
+    prot = ProtocolBase()
+    rng = check.rng
+    D = decimal.Decimal
+    decs = [D(x) for x in ['0', '-0', '1', '-1', '0.1', '-0.00', '123.450', '1E+10', '1E-7', '1E-6', '1E-5', '12E1', '0E+3',
+                           '0E-10', '1E+30', '9' * 40, '-' + '9' * 40 + '.' + '9' * 40, '1.0E-20', '5E-324', '1E+100',
+                           '0.000001', '0.0000001', '100', '1.10']]
+    n = 200 if tier == 'quick' else 4000
+    for _ in range(n):
+        coeff = rng.choice([rng.randint(0, 10 ** 6), rng.randint(0, 10 ** 30)])
+        decs.append(D((rng.randrange(2), tuple(int(c) for c in str(coeff)), rng.randint(-30, 30))))
+    for d in decs:
+        s = prot.to_unicode(Decimal, d)
+        check.count(('dec', str(d)))
+        if len(s) > 1024:
+            continue
+        o = observe(prot.from_unicode, Decimal, s)
+        if o[0] != 'ok' or o[1] != d:
+            check.fail('C08|Decimal|roundtrip', 'Decimal %r written %r read back %r' % (d, s, o), {'value': str(d)})
+        elif not xsd_ok('decimal', s):
+            shape = 'scientific-notation' if 'E' in s.upper() else 'other'
+            check.fail('C08|Decimal|out_lex|%s' % shape, 'Decimal text %r is not a valid xs:decimal' % s, {'value': str(d)})
+    for lit, want in [('1', D(1)), ('+1.', D(1)), ('.5', D('0.5')), ('-0.50', D('-0.5')), ('007.10', D('7.1')), ('0', D(0))]:
+        o = observe(prot.from_unicode, Decimal, lit)
+        check.count(('decl', lit))
+        if xsd_ok('decimal', lit) and o != ('ok', want):
+            check.fail('C08|Decimal|in_lex', 'xs:decimal literal %r read as %r' % (lit, o), {'text': lit})
+    dbls = [0.0, -0.0, 1.0, -1.0, 0.1, 1e22, 1e-5, 1e21, 1e16, 123456789.123456789, 5e-324, 1.7976931348623157e308,
+            2.2250738585072014e-308, float('inf'), float('-inf'), float('nan'), 1 / 3.0, 2 ** 53 + 0.0, 1e-7]
+    for _ in range(n):
+        dbls.append(struct.unpack('<d', struct.pack('<Q', rng.getrandbits(64)))[0])
+    for f in dbls:
+        s = prot.to_unicode(Double, f)
+        o = observe(prot.from_unicode, Double, s)
+        check.count(('dbl', repr(f)))
+        same = o[0] == 'ok' and ((math.isnan(f) and math.isnan(o[1])) or
+                                 (o[1] == f and math.copysign(1, o[1]) == math.copysign(1, f)))
+        if not same:
+            check.fail('C08|Double|roundtrip', 'Double %r written %r read back %r' % (f, s, o), {'value': repr(f)})
+        elif not xsd_ok('double', s):
+            shape = 'special-value' if (math.isnan(f) or math.isinf(f)) else 'finite'
+            check.fail('C08|Double|out_lex|%s' % shape, 'Double text %r is not a valid xs:double' % s, {'value': repr(f)})
+    for lit, want in [('INF', float('inf')), ('-INF', float('-inf')), ('1e3', 1000.0), ('1E3', 1000.0), ('-0', -0.0), ('+1.5', 1.5), ('.5', .5)]:
+        o = observe(prot.from_unicode, Double, lit)
+        check.count(('dbll', lit))
+        if xsd_ok('double', lit) and o != ('ok', want):
+            check.fail('C08|Double|in_lex', 'xs:double literal %r read as %r' % (lit, o), {'text': lit})
+    for _ in range(50 if tier == 'quick' else 1000):
+        u = uuid.UUID(int=rng.getrandbits(128))
+        s = prot.to_unicode(Uuid, u)
+        o = observe(prot.from_unicode, Uuid, s)
+        check.count(('uuid', s))
+        if o != ('ok', u):
+            check.fail('C08|Uuid|roundtrip', 'Uuid %r written %r read back %r' % (u, s, o), {'value': str(u)})
+    texts = ['', 'a', ' lead', 'trail ', 'a\tb', 'ünï', '中文', '\U0001f600', '<&>', 'x' * 300, '\u0000'[:0] + 'q']
+    for _ in range(50 if tier == 'quick' else 1000):
+        texts.append(''.join(chr(rng.choice([rng.randint(32, 126), rng.randint(0xa0, 0xd7ff), rng.randint(0x10000, 0x10ffff)]))
+                             for _ in range(rng.randint(1, 10))))
+    for T in (Unicode, AnyUri):
+        for t in texts:
+            s = prot.to_unicode(T, t)
+            o = observe(prot.from_unicode, T, s)
+            check.count(('txt', T.__name__, t))
+            if t != '' and o != ('ok', t):
+                check.fail('C08|%s|roundtrip' % T.__name__, '%s %r written %r read back %r' % (T.__name__, t, s, o), {'value': t})
+    check.sample({'family': 'decimal/double/uuid/unicode (oracle only)', 'decimals': [str(d) for d in decs[:6]],
+                  'doubles': [repr(f) for f in dbls[:6]]})
+
+
 def run(check):
     tier = check.tier
     check.rule = ('per primitive family: boundary values (all 2^k, 10^k neighbours, fixed-width bounds), '
@@ -171,12 +668,20 @@ def run(check):
         'translator harness/translate/numtypes.py (validate_native / validate_string / Attributes of number models -> Gen/NumTypes.v)',
         'modelled, not verified: CPython int()/str() on text, lxml XMLSchema simple-type validation (used as the XSD oracle)',
     ]
-    check.assumptions = ['Unicode decimal digits other than ASCII are outside the modelled int() universe',
+    check.assumptions = ['Decimal, Double (finite values: CPython shortest-repr round trip), Uuid, Unicode and AnyUri are decided by the direct oracle only (standard-library codecs, not modelled in Coq)',
+                         'Unicode decimal digits other than ASCII are outside the modelled int() universe',
                          'str_format/format customisations are opaque (default formats only)']
     check.regen(['numtypes'])
     check.check_sources()
     check.prove('Props.C08', THEOREMS)
+    check.prove('Props.C08_dt', THEOREMS_DT)
+    check.prove('Props.C08_dur', THEOREMS_DUR)
+    check.prove('Props.C08_bin', THEOREMS_BIN)
     family_int(check, tier)
+    family_datetime(check, tier)
+    family_duration(check, tier)
+    family_binary(check, tier)
+    family_other(check, tier)
     lib.flush_correspondences(check)
     return check.finish()
 
